@@ -53,6 +53,7 @@ func colAlts() []colAlt {
 		{label: "RolePair", typ: "RolePair", declB: "type RolePair [2]Role\n"},
 		{label: "Pos", typ: "Pos", declB: "type Pos struct {\n\tX, Y int\n}\n"},
 		{label: "PosEnum", typ: "PosEnum", declB: "type PosEnum struct {\n\tA int16\n\tR Role\n}\n"},
+		{label: "PosHidden", typ: "PosHidden", declB: "type PosHidden struct {\n\tA      int\n\thidden int\n\tB      int\n}\n"},
 		{label: "ext.Pos", typ: "ext.Pos"},
 		{label: "Empty", typ: "Empty", declB: "type Empty struct{}\n"},
 		{label: "Profile", typ: "Profile", declB: "type Profile struct {\n\tNick  string `json:\"nick\"`\n\tAge   int\n\tLinks map[string]string\n\tTags  []string\n\tRole  Role\n\tAt    time.Time\n\tXY    [2]float64\n\tsecret int\n}\n"},
@@ -102,6 +103,8 @@ var userDirectives = []string{
 	"// gomacro:SQL ADD UNIQUE(Name)\n// gomacro:SQL ADD UNIQUE(Mood)",
 	// a placeholder used twice with another one in between
 	"// gomacro:QUERY RetouchUser UPDATE User SET Name = $v$, Role = $role$ WHERE Name = $v$",
+	// an argument compared with a time.Time column
+	"// gomacro:QUERY SeenUsers UPDATE User SET Name = $n$ WHERE Seen = $since$",
 	// the select key directive is matched case-insensitively
 	"// gomacro:SQL _select key(Name)",
 }
@@ -156,8 +159,8 @@ func TablesWith(c explore.Chooser, defaultCol string) *prog.Program {
 	userDir := s.Pick("user.directive", userDirectives...)
 	linkDir := s.Pick("link.directive", linkDirectives...)
 	style := s.Pick("decl.style", "separate", "grouped-spec-docs", "grouped-group-doc", "plain-comment-between", "directive-on-neighbour", "comment-after-directive")
-	tableName := s.Pick("name.table", "User", "UserAccount", "U", "HTTPLog", "Log2Entry", "Address", "userData")
-	extraFK := s.Pick("user.extra-fk", "none", "team", "team-unique")
+	tableName := s.Pick("name.table", "User", "UserAccount", "U", "HTTPLog", "Log2Entry", "Address", "userData", "Point2D", "Api2HTTPLog")
+	extraFK := s.Pick("user.extra-fk", "none", "team", "team-unique", "team-unique-nullable", "team-unique-wrapper")
 	teamSlot := s.Pick("team.slot", "none", "same-column")
 	roleForm := s.Pick("role.form", "unexported-tail", "unexported-sentinel", "unexported-duplicate")
 	dirtyFirst := s.Pick("user.unexported-first", "no", "yes")
@@ -186,7 +189,7 @@ func TablesWith(c explore.Chooser, defaultCol string) *prog.Program {
 	if dirtyFirst == "yes" { // an unexported field that is not a guard, declared before the id
 		uf = append([]string{"\tdirty bool"}, uf...)
 	}
-	uf = append(uf, "\tName string", "\tRole Role", "\tMood Mood")
+	uf = append(uf, "\tName string", "\tRole Role", "\tMood Mood", "\tSeen time.Time")
 	uf = append(uf, fmt.Sprintf("\t%s %s %s", colName, col.typ, colTag))
 	switch guard {
 	case "literal-before-id":
@@ -207,6 +210,18 @@ func TablesWith(c explore.Chooser, defaultCol string) *prog.Program {
 	switch extraFK {
 	case "team":
 		uf = append(uf, "\tIdTeam IdTeam")
+	case "team-unique-nullable", "team-unique-wrapper":
+		if extraFK == "team-unique-nullable" {
+			uf = append(uf, "\tIdTeam sql.NullInt64 `gomacro-sql-foreign:\"Team\"`")
+		} else {
+			b.WriteString("type OptTeamU struct {\n\tValid bool\n\tID    IdTeam\n}\n\n")
+			uf = append(uf, "\tIdTeam OptTeamU `gomacro-sql-foreign:\"Team\"`")
+		}
+		if userDir == "" {
+			userDir = "// gomacro:SQL ADD UNIQUE(IdTeam)"
+		} else {
+			userDir += "\n// gomacro:SQL ADD UNIQUE(IdTeam)"
+		}
 	case "team-unique":
 		uf = append(uf, "\tIdTeam IdTeam")
 		if userDir == "" {
